@@ -13,6 +13,7 @@ import (
 	"time"
 
 	"verif/harness/host"
+	"verif/harness/resp"
 	"verif/harness/verdict"
 	"verif/harness/wire"
 )
@@ -379,6 +380,60 @@ var c16Classes = []c16Class{
 		tmp.Close()
 		return nil
 	}},
+	{"kill-with-command-in-flight", func(cn *wire.Conn, rng *rand.Rand, i int, env *c16Env) error {
+		// a connection is closed from the server side (CLIENT KILL by another client, or by itself as the last command of
+		// its own transaction) while one of its transaction-related commands is still running: what the termination path
+		// touches of the client's state meets what the command goroutine touches
+		tmp, err := env.e.dial()
+		if err != nil {
+			return nil
+		}
+		defer tmp.Close()
+		tid, err := tmp.ClientID()
+		if err != nil {
+			return nil
+		}
+		id := strconv.FormatInt(tid, 10)
+		tmp.Timeout = 2 * time.Second
+		switch i % 4 {
+		case 0:
+			// self-kill as the last queued command: EXEC is still finishing when the connection terminates
+			pipe(tmp, []string{"WATCH", "k0", "k1"}, []string{"MULTI"}, []string{"SET", "k2", "v"}, []string{"CLIENT", "KILL", "ID", id, "SKIPME", "no"}, []string{"EXEC"})
+			return nil
+		case 1:
+			// killed by the worker while a long pipeline of WATCH/UNWATCH/transactions is being executed
+			var b []byte
+			for j := 0; j < 40; j++ {
+				b = append(b, resp.Cmd("WATCH", "k0", "l0", "cnt")...)
+				b = append(b, resp.Cmd("MULTI")...)
+				b = append(b, resp.Cmd("INCR", "cnt")...)
+				b = append(b, resp.Cmd("LRANGE", "l0", "0", "-1")...)
+				b = append(b, resp.Cmd("EXEC")...)
+				b = append(b, resp.Cmd("WATCH", "k1")...)
+				b = append(b, resp.Cmd("UNWATCH")...)
+				b = append(b, resp.Cmd("CLIENT", "INFO")...)
+			}
+			tmp.Send(b)
+		case 2:
+			var b []byte
+			for j := 0; j < 40; j++ {
+				b = append(b, resp.Cmd("WATCH", "k0")...)
+				b = append(b, resp.Cmd("MULTI")...)
+				b = append(b, resp.Cmd("SET", "k0", "w")...)
+				b = append(b, resp.Cmd("DISCARD")...)
+				b = append(b, resp.Cmd("CLIENT", "LIST")...)
+			}
+			tmp.Send(b)
+		case 3:
+			// the victim's EXEC is queued behind the worker's own long command on the same database
+			tmp.Send(append(append(append(resp.Cmd("WATCH", "k0"), resp.Cmd("MULTI")...), resp.Cmd("GET", "k0")...), resp.Cmd("EXEC")...))
+		}
+		if i%8 >= 4 {
+			time.Sleep(time.Duration(rng.Intn(300)) * time.Microsecond)
+		}
+		do(cn, "CLIENT", "KILL", "ID", id)
+		return nil
+	}},
 	{"info", func(cn *wire.Conn, rng *rand.Rand, i int, _ *c16Env) error {
 		if i%2 == 0 {
 			return do(cn, "INFO")
@@ -583,7 +638,7 @@ func c16RunPairs(r *verdict.Run, pairs []c16Pair, opsPerConn int, shard int) []h
 }
 
 func checkC16(r *verdict.Run) {
-	r.Rule = fmt.Sprintf("the emulator is built with -race and driven by a pair-coverage workload: %d command classes (string/list/hash/set/bitmap read+write, counters, blocking pops, set algebra, keyspace, expiry, SCAN, MULTI/EXEC, transactions with CLIENT LIST/KILL/UNBLOCK/INFO and with SELECT/FLUSHALL inside, DUMP/RESTORE, blocking pops in other databases, databases created on first SELECT, WATCH, WATCH and writes across databases, SELECT, FLUSH, DBSIZE, CLIENT LIST/INFO/SETNAME, CLIENT UNBLOCK/KILL, INFO, HELLO, COMMAND, connection churn, SORT, invalid input); every scheduled pair runs 3+3 connections concurrently on the same keys, "+
+	r.Rule = fmt.Sprintf("the emulator is built with -race and driven by a pair-coverage workload: %d command classes (string/list/hash/set/bitmap read+write, counters, blocking pops, set algebra, keyspace, expiry, SCAN, MULTI/EXEC, transactions with CLIENT LIST/KILL/UNBLOCK/INFO and with SELECT/FLUSHALL inside, DUMP/RESTORE, blocking pops in other databases, databases created on first SELECT, WATCH, WATCH and writes across databases, SELECT, FLUSH, DBSIZE, CLIENT LIST/INFO/SETNAME, CLIENT UNBLOCK/KILL, CLIENT KILL of connections with WATCH/EXEC/DISCARD/CLIENT INFO in flight and self-kill as the last queued command, INFO, HELLO, COMMAND, connection churn, SORT, invalid input); every scheduled pair runs 3+3 connections concurrently on the same keys, "+
 		"with the periodic saver on (persist path), a second emulator instance in the same process, SetHook toggled from the host and yields injected around the data store lock; race reports are read from the GORACE log, reduced to the sorted pair of innermost emulator functions. distinct = class pairs whose operations demonstrably overlapped in time", len(c16Classes))
 	n := len(c16Classes)
 	var all []c16Pair
